@@ -305,3 +305,52 @@ Lemma unrepaired_payload_classes :
 Proof.
   split; [vm_compute; reflexivity|]. split; [|split]; eexists; repeat split; vm_compute; reflexivity.
 Qed.
+
+(* ====================== edit after parse (C10Edit / C10EditProofs) ====================== *)
+From YV Require Import C10.C10Edit C10.C10EditProofs.
+
+(* non-vacuity: an object PARSED from a payload (extended text quoting a conversation, with mentions
+   and a location carrying a present empty name), then edited on nested objects, is in the domain *)
+Definition ex_edit_payload : pmsg := [
+  ("extended_text_message", VRec "Message.ExtendedTextMessage" [
+     ("text", VStr [104%N; 105%N]);
+     ("context_info", VRec "ContextInfo" [
+        ("stanza_id", VStr [115%N; 49%N]);
+        ("mentioned_jid", VList [VStr [97%N]; VStr [98%N]]);
+        ("quoted_message", VRec "Message" [("conversation", VStr [100%N; 101%N; 101%N; 112%N])])])]);
+  ("location_message", VRec "Message.LocationMessage" [("degrees_latitude", VFlt 0%N); ("name", VStr [])])
+].
+Definition parsed_edit : val := Eval vm_compute in
+  match from_proto_f 8 table "message" ex_edit_payload with Ok a => a | Err _ => VNone end.
+Definition quoted_conv_path : list name := ["extended_text"; "context_info"; "quoted_message"; "conversation"].
+Definition new_text : val := VStr [110%N; 101%N; 119%N].
+
+Example edit_after_parse_meets_hypotheses :
+  (get_path quoted_conv_path parsed_edit,
+   in_domain_f 8 table "message"
+     (set_paths [(quoted_conv_path, new_text); (["extended_text"; "context_info"; "mentioned_jid"], VList [VStr [99%N]]);
+                 (["location"; "name"], VNone)] parsed_edit))
+  = (Some (VStr [100%N; 101%N; 101%N; 112%N]), true).
+Proof. vm_compute. reflexivity. Qed.
+
+(* ... and the conclusion computed: the round trip of the edited object returns the NEW values and
+   leaves the rest alone *)
+Example edit_after_parse_roundtrip :
+  match roundtrip_f 8 table "message"
+          (set_paths [(quoted_conv_path, new_text);
+                      (["extended_text"; "context_info"; "mentioned_jid"], VList [VStr [99%N]])] parsed_edit) with
+  | Ok b => (get_path quoted_conv_path b, get_path ["extended_text"; "context_info"; "mentioned_jid"] b,
+             get_path ["extended_text"; "text"] b, get_path ["location"; "name"] b)
+  | Err _ => (None, None, None, None)
+  end = (Some new_text, Some (VList [VStr [99%N]]), Some (VStr [104%N; 105%N]), Some (VStr [])).
+Proof. vm_compute. reflexivity. Qed.
+
+(* the level hypothesis of edit_in_domain_roundtrip_thm is satisfiable: editing the text of the
+   extended text keeps that object in every sub-domain it was in (computed check, sound by
+   dom_le_b_sound) *)
+Definition ext_level : val := Eval vm_compute in
+  match get_path ["extended_text"] parsed_edit with Some x => x | None => VNone end.
+
+Example edit_level_hypothesis :
+  dom_le 4 table ext_level (set_path ["text"] (VStr [120%N]) ext_level).
+Proof. apply dom_le_b_sound. vm_compute. reflexivity. Qed.
